@@ -216,7 +216,11 @@ const NONASCII: &[char] = &[
     '\u{1c5}', '\u{a7b1}', '\u{2c7c}',
 ];
 const UNCASED: &[char] = &['\u{3042}', '\u{4e2d}', '\u{5d1}'];
-const SPACES: &[char] = &[' ', ' ', ' ', '\t', '\n', '\u{3000}', '\u{a0}', '\r'];
+// every White_Space code point (the splitter is documented in terms of char::is_whitespace)
+const SPACES: &[char] = &[
+    ' ', ' ', ' ', ' ', ' ', ' ', '\t', '\n', '\r', '\u{b}', '\u{c}', '\u{85}', '\u{a0}', '\u{1680}', '\u{2000}', '\u{2001}', '\u{2002}', '\u{2003}', '\u{2004}',
+    '\u{2005}', '\u{2006}', '\u{2007}', '\u{2008}', '\u{2009}', '\u{200a}', '\u{2028}', '\u{2029}', '\u{202f}', '\u{205f}', '\u{3000}',
+];
 const MARKERS: &[char] = &['\\', '\\', '!', '^', '\'', '$'];
 
 fn gen_pattern(rng: &mut Rng, allow_nonascii: bool) -> String {
